@@ -3,12 +3,15 @@ Lean: Props/C01.lean — (a) oracle = legality predicate, soundness of the accep
 (b) theorems about the ALGORITHMS of moveGen.cpp, modelled in Chess/TexelGen*.lean on bitboards: sqAttacked / inCheck =
 spec, sliding attacks depend on the inner mask only (table comparison lifted to all occupancies), isLegal (all five
 paths) and removeIllegal = "king not attacked after the move", pseudoLegalMoves = movement rules without duplicates,
-pseudoLegalMoves + removeIllegal is a permutation of the legal moves.
+pseudoLegalMoves + removeIllegal is a permutation of the legal moves; givesCheck = "the opponent is in check after the
+move" for every pseudo-legal move that does not put the kings next to each other (hence every legal move): direct,
+discovered, promotion through the vacated square, castling rook, both en-passant lines; pseudoLegalCapturesAndChecks =
+exactly the pseudo-legal moves described by its masks (CCGen) and omits no capture, promotion (Q/N) or checking move.
 Tie: for every generated position (1) the real MoveGen's six lists and per-move verdicts are dumped by the harness and
 judged by the proven acceptor in the compiled Lean driver; (2) the same dump IN GENERATION ORDER (in-check flag,
 pseudo-legal list, isLegal and givesCheck per move, list after removeIllegal, evasions, captures, captures-and-checks) is
 compared line by line with the Lean model of the algorithms, after the driver has checked the hypotheses of the
-theorems (GenWF) on that position; FEN accept/reject + canonical FEN compared; sliding attack tables compared with the
+theorems (GenWF, kings not adjacent, GcWF: opponent's king unique and not attacked, e.p. square sane) on that position; FEN accept/reject + canonical FEN compared; sliding attack tables compared with the
 spec's AND the model's ray walk for the subsets of the implementation's own relevant-occupancy masks (compared with
 the model's inner masks), king/knight/pawn tables, squares-between and direction tables exhaustively; perft."""
 import os
@@ -188,6 +191,6 @@ def run(ctx):
                        "(random sparse/dense with promotion-consistent counts, pins, en-passant pins on rank/diagonal, castling through/into attacked squares, promotions with capture, checks and double checks); "
                        "distinct = distinct board+side+castling+ep; every position: FEN accept/reject and canonical FEN compared with the model, MoveGen dump judged by the acceptor; "
                        "tables: rook/bishop attacks for subsets of the inner mask (all 107 648 in thorough) + random full occupancies, each against the spec's and the generator model's ray walk, the masks themselves, king/knight/pawn attacks, 64x64 direction and squares-between; "
-                       "every accepted position additionally: hypotheses GenWF of the generator theorems evaluated, ordered dump of the real MoveGen == Lean model of its algorithms")
+                       "every accepted position additionally: hypotheses GenWF / kingsApart / GcWF of the generator, evasion, givesCheck and captures-and-checks theorems evaluated (a failing hypothesis is a disagreement), ordered dump of the real MoveGen == Lean model of its algorithms")
     if not quick:
         vlib.leanchecker(ctx, ["TexelVerif.Props.C01"])
